@@ -55,6 +55,16 @@ const preludeDecls = `(set-logic ALL)
 (declare-fun fmtuint (Int Int) Int)
 (declare-fun fmtuint_inv (Int) Int)
 (declare-fun bvxor64 (Int Int) Int)
+(declare-fun rt_pkgpath (Int) Int)
+(declare-fun rt_string (Int) Int)
+(declare-fun hw (Int Int) Int)
+(declare-fun hsum (Int) Int)
+(declare-fun rth (Int Int) Int)
+(declare-fun typefp (Int) Int)
+(declare-fun xorfold ((Array Int Bool)) Int)
+(declare-const hinit Int)
+(declare-fun qvals (Int) Int)
+(declare-fun qget (Int Int) Int)
 (declare-fun bvand64 (Int Int) Int)
 (declare-fun bvor64 (Int Int) Int)
 (declare-fun bvshl64 (Int Int) Int)
@@ -78,6 +88,9 @@ func (e *Engine) axioms() []axiom {
 		{"(pair ", `(assert (forall ((a Int) (b Int)) (! (and (= (pair_fst (pair a b)) a) (= (pair_snd (pair a b)) b)) :pattern ((pair a b)))))`},
 		{"(pair ", `(assert (= (pair 0 0) 0))`},
 		{"(pair_fst ", `(assert (and (= (pair_fst 0) 0) (= (pair_snd 0) 0)))`},
+		{"(xorfold ", `(assert (= (xorfold ((as const (Array Int Bool)) false)) 0))`},
+		{"(xorfold ", `(assert (forall ((d (Array Int Bool)) (k Int)) (! (=> (not (select d k)) (= (xorfold (store d k true)) (bvxor64 (xorfold d) (typefp k)))) :pattern ((xorfold (store d k true))))))`},
+		{"(xorfold ", `(assert (forall ((k Int)) (! (= (typefp k) (hsum (rth (hw hinit (strcat (rt_pkgpath (pair_snd k)) (rt_string (pair_snd k)))) (pair_snd k)))) :pattern ((typefp k)))))`},
 		{"(boxreal ", `(assert (forall ((x Real)) (! (= (unboxreal (boxreal x)) x) :pattern ((boxreal x)))))`},
 		{"(strlen ", `(assert (forall ((s Int)) (! (>= (strlen s) 0) :pattern ((strlen s)))))`},
 		{"(strlen ", `(assert (= (strlen 0) 0))`},
